@@ -20,7 +20,7 @@ CLAUSE_PROP = {
     "V_noraise": "C06", "V_accept": "C04", "V_dropwhole": "C04", "V_counted": "C04", "V_deliver": "C04", "V_once": "C04",
 }
 # clauses that more than one property relies on
-ALSO = {"F_window": ("C01", "C11"), "V_nolost": ("C07",), "V_ctxage": ("C05",), "V_acked": ("C05", "C07"), "B_ack": ("C05", "C07"), "B_known": ("C04", "C05", "C07", "C06"), "V_exact": ("C04",), "E_left": ("C05", "C07"), "K_notstuck": ("C09", "C07", "C06"), "S_fit": ("C09", "C07", "C06"), "V_accept": ("C08",), "V_deliver": ("C06",), "S_ok": ("C09",), "B_seq": ("C03",)}
+ALSO = {"F_window": ("C01", "C11"), "V_nolost": ("C07", "C08"), "V_ctxage": ("C05",), "V_acked": ("C05", "C07"), "B_ack": ("C05", "C07"), "B_known": ("C04", "C05", "C07", "C06"), "V_exact": ("C04",), "E_left": ("C05", "C07"), "K_notstuck": ("C09", "C07", "C06"), "S_fit": ("C09", "C07", "C06"), "V_accept": ("C08",), "V_deliver": ("C06",), "S_ok": ("C09",), "B_seq": ("C03",)}
 
 
 def props_of(clause):
@@ -209,7 +209,8 @@ def run_scenarios(ctx, mine, scenarios, workers=6):
 
 def _lateness(args):
     """One datagram of the client is overtaken by L others, arrives, and then everything is replayed once (window boundary sweep)."""
-    L, start, seed = args
+    L, start, seed = args[:3]
+    per_tick = args[3] if len(args) > 3 else 1      # messages per datagram: with k > 1 a datagram that is L datagrams late carries messages that are k*L messages late
     w = W.ConnWorld(start_seq=start)
     try:
         import random
@@ -217,7 +218,7 @@ def _lateness(args):
         late = rnd.randint(2, 5)
 
         def sends(tick, name, world):
-            return [(rnd.choice([4, 20, 60]), 0, False)] if name == "c" and tick <= L + late + 3 else []
+            return [(rnd.choice([4, 20, 60] if per_tick == 1 else [4, 5, 6]), 0, False) for _ in range(per_tick)] if name == "c" and tick <= L + late + 3 else []
 
         def fate(tick, name, dgid, world):
             if name == "c" and dgid == late:
@@ -233,12 +234,12 @@ def _lateness(args):
         w.close()
 
 
-def lateness_sweep(ctx, mine, lates, starts=(None, 65500, 65530)):
+def lateness_sweep(ctx, mine, lates, starts=(None, 65500, 65530), per_tick=1):
     from concurrent.futures import ProcessPoolExecutor
-    jobs = [(L, st, ctx.seed + L) for L in lates for st in starts]
+    jobs = [(L, st, ctx.seed + L, per_tick) for L in lates for st in starts]
     with ProcessPoolExecutor(16) as ex:
         traces = list(ex.map(_lateness, jobs))
-    names = ["lateness-%d(start=%s)" % (j[0], j[1]) for j in jobs]
+    names = ["lateness-%d%s(start=%s)" % (j[0], "" if per_tick == 1 else "x%d-messages" % per_tick, j[1]) for j in jobs]
     rej, r = judge(ctx, traces, "Trace_Conn %s lateness sweep (%d traces)" % (mine, len(traces)), stale=True, ctxdev=True)
     ctx.traces += len(traces) - len({x["tid"] for x in rej})
     for t in traces:
